@@ -36,3 +36,15 @@ PROP = {
                      "model/implementation correspondence on the real Subscribe server",
     },
 }
+
+# C04 over the sequential, code-shaped Subscribe model (Props/C04Seq.lean): see docs/STREAM_SEQ_NOTES.md
+from c04seq_part import MODULES as _SEQ_MODULES, THEOREMS as _SEQ_THEOREMS
+PROP["modules"] += _SEQ_MODULES
+PROP["theorems"] += _SEQ_THEOREMS
+PROP["manifest"]["level_text"] += (
+    " In addition, over the sequential code-shaped model that the su correspondence drives (Model/Subscribe.lean): stream_converges_partial — "
+    "for every history of subscriptions (any mode, any ACL, at any point) and cache API calls (any shape, OkRun side conditions of C03, no target "
+    "literally named '*': star_target_breaks_convergence shows that hypothesis is needed), every live STREAM subscriber with flow control open "
+    "holds, in the view replayed from everything sent to it, exactly what the cache holds on every allowed key its subscription matches (same "
+    "notification, or with event-driven emulation one of equal value), nothing else (stream_converges_exact, stream_queue_drained).")
+
